@@ -124,6 +124,39 @@ theorem rphp_opb_spec (m r n : Nat) (α : Assign) :
       RPHPSpec m r n (rphpP r α) (rphpA m r n α) (rphpQ m r n α) := by
   rw [Formula.toOPB_holds α _ (rphp_wf m r n)]; exact rphp_spec m r n α
 
+/-- the specification only looks at in-range indices -/
+theorem RPHPSpec_congr {m r n : Nat} {P P' : Nat → Nat → Prop} {A A' : Nat → Prop} {Q Q' : Nat → Nat → Prop}
+    (hP : ∀ u v, 1 ≤ u → u ≤ m → 1 ≤ v → v ≤ r → (P u v ↔ P' u v))
+    (hA : ∀ v, 1 ≤ v → v ≤ r → (A v ↔ A' v))
+    (hQ : ∀ v w, 1 ≤ v → v ≤ r → 1 ≤ w → w ≤ n → (Q v w ↔ Q' v w)) :
+    RPHPSpec m r n P A Q → RPHPSpec m r n P' A' Q' := by
+  rintro ⟨h1, h2, h3, h4, h5⟩
+  refine ⟨?_, ?_, ?_, ?_, ?_⟩
+  · intro u a b
+    obtain ⟨v, c, d, e⟩ := h1 u a b
+    exact ⟨v, c, d, (hP u v a b c d).1 e⟩
+  · intro v a b u c d u' c' d' e e'
+    exact h2 v a b u c d u' c' d' ((hP u v c d a b).2 e) ((hP u' v c' d' a b).2 e')
+  · intro v a b u c d e
+    exact (hA v a b).1 (h3 v a b u c d ((hP u v c d a b).2 e))
+  · intro v a b e
+    obtain ⟨w, c, d, f⟩ := h4 v a b ((hA v a b).2 e)
+    exact ⟨w, c, d, (hQ v w a b c d).1 f⟩
+  · intro w a b v₁ v₂ c d e ⟨f1, f2, f3, f4⟩
+    exact h5 w a b v₁ v₂ c d e ⟨(hA v₁ c (by omega)).2 f1, (hA v₂ (by omega) e).2 f2,
+      (hQ v₁ w c (by omega) a b).2 f3, (hQ v₂ w (by omega) e a b).2 f4⟩
+
+/-- every triple (resting relation, active places, flying relation) with the documented
+properties is described by a satisfying assignment -/
+theorem rphp_realises (m r n : Nat) (P Q : Nat → Nat → Bool) (A : Nat → Bool)
+    (h : RPHPSpec m r n (fun u v => P u v = true) (fun v => A v = true) (fun v w => Q v w = true)) :
+    (rphpF m r n).holds (rphpAssign m r n P Q A) = true := by
+  rw [rphp_spec]
+  refine RPHPSpec_congr ?_ ?_ ?_ h
+  · intro u v a b c d; simp only [rphpP, rphpAssign_p m r n P Q A a b c d]
+  · intro v a _; simp only [rphpA, rphpAssign_r m r n P Q A a]
+  · intro v w a b c d; simp only [rphpQ, rphpAssign_q m r n P Q A a b c d]
+
 /-- T-C01.3 corollary: satisfiable exactly when `m ≤ r` and `m ≤ n`.  (The docstring's
 "only satisfiable when m ≤ t ≤ n" is not the exact condition: `t ≤ n` is not necessary.) -/
 theorem rphp_sat_iff (m r n : Nat) : (∃ α, (rphpF m r n).holds α = true) ↔ m ≤ r ∧ m ≤ n := by
@@ -148,24 +181,20 @@ theorem rphp_sat_iff (m r n : Nat) : (∃ α, (rphpF m r n).holds α = true) ↔
       subst hvv
       exact h2 v hv1 hv2 u hu1 hu2 u' hu1' hu2' hP hP'
   · rintro ⟨hmr, hmn⟩
-    refine ⟨rphpWitness m r n, (rphp_spec m r n _).2 ⟨?_, ?_, ?_, ?_, ?_⟩⟩
-    · intro u hu1 hu2
-      refine ⟨u, hu1, by omega, ?_⟩
-      simp only [rphpP, rphpWitness_p m r n hu1 hu2 hu1 (show u ≤ r by omega)]; simp
-    · intro v hv1 hv2 u hu1 hu2 u' hu1' hu2' hP hP'
-      simp only [rphpP, rphpWitness_p m r n hu1 hu2 hv1 hv2, rphpWitness_p m r n hu1' hu2' hv1 hv2,
-        beq_iff_eq] at hP hP'
-      omega
-    · intro v hv1 hv2 u hu1 hu2 hP
-      simp only [rphpP, rphpWitness_p m r n hu1 hu2 hv1 hv2, beq_iff_eq] at hP
-      simp only [rphpA, rphpWitness_r m r n hv1, decide_eq_true_eq]; omega
-    · intro v hv1 hv2 hA
-      simp only [rphpA, rphpWitness_r m r n hv1, decide_eq_true_eq] at hA
-      refine ⟨v, hv1, by omega, ?_⟩
-      simp only [rphpQ, rphpWitness_q m r n hv1 hv2 hv1 (show v ≤ n by omega)]; simp [hA]
-    · intro w hw1 hw2 v₁ v₂ h1 hlt h2 ⟨_, _, hQ, hQ'⟩
-      simp only [rphpQ, rphpWitness_q m r n h1 (show v₁ ≤ r by omega) hw1 hw2,
-        rphpWitness_q m r n (show 1 ≤ v₂ by omega) h2 hw1 hw2, Bool.and_eq_true, beq_iff_eq] at hQ hQ'
+    -- pigeon u rests at place u, which is active and sends it to hole u
+    refine ⟨_, rphp_realises m r n (fun u v => u == v) (fun v w => v == w && decide (v ≤ m))
+      (fun v => decide (v ≤ m)) ⟨?_, ?_, ?_, ?_, ?_⟩⟩
+    · intro u hu1 hu2; exact ⟨u, hu1, by omega, by simp⟩
+    · intro v _ _ u _ _ u' _ _ hP hP'
+      simp only [beq_iff_eq] at hP hP'; omega
+    · intro v _ _ u _ _ hP
+      simp only [beq_iff_eq] at hP
+      simp only [decide_eq_true_eq]; omega
+    · intro v hv1 _ hA
+      simp only [decide_eq_true_eq] at hA
+      exact ⟨v, hv1, by omega, by simp [hA]⟩
+    · intro w _ _ v₁ v₂ _ _ _ ⟨_, _, hQ, hQ'⟩
+      simp only [Bool.and_eq_true, beq_iff_eq] at hQ hQ'
       omega
 
 end Cnfgen.C01
